@@ -25,11 +25,13 @@ package eventlogger
 //@   ensures C02/fresh-graph-zero-sinks: !(t == "" || successThreshold < 0) && !old(t in b.graphs) ==> b.graphs[t].successThresholdSinks == 0
 //@   ensures wf: wfGraphs(b)
 //@   ensures unlocked: noLocksHeld()
+//@   ensures C04/single-critical-section: acquisitions(b.lock) <= old(acquisitions(b.lock)) + 1
 
 //@ func (*Broker).SuccessThreshold(t) (n, ok)
 //@   requires b != nil && noLocksHeld() && wfGraphs(b)
 //@   ensures C02/reads-back: ok == (t in b.graphs) && (ok ==> n == b.graphs[t].successThreshold) && (!ok ==> n == 0)
 //@   ensures unlocked: noLocksHeld()
+//@   ensures C04/single-critical-section: acquisitions(b.lock) <= old(acquisitions(b.lock)) + 1
 
 // ---- registration options ----
 
@@ -90,9 +92,11 @@ package eventlogger
 //@   ensures C06+C07/others-untouched: (forall i NodeID :: i != id ==> (i in b.nodes) == old(i in b.nodes) && b.nodes[i] == old(b.nodes[i])) && (forall u *nodeUsage :: old(allocated(u)) ==> u.node == old(u.node) && u.referenceCount == old(u.referenceCount) && u.registrationPolicy == old(u.registrationPolicy))
 //@   ensures wf: wfNodes(b)
 //@   ensures unlocked: noLocksHeld()
+//@   ensures C04/single-critical-section: acquisitions(b.lock) <= old(acquisitions(b.lock)) + 1
 
 //@ func (*Broker).removeNode(ctx, id, force) (err)
 //@   requires b != nil && held(b.lock) == 2 && wfNodes(b)
+//@   ensures C04/no-lock-operations: acquisitions(b.lock) == old(acquisitions(b.lock))
 //@   assigns map:map[NodeID]*nodeUsage, nodeUsage.referenceCount, ev, ctxdone
 //@   ensures C05/not-found-is-noop: (id == "" || !old(id in b.nodes)) ==> err != nil && nodesUnchanged(b) && calls("Closer.Close") == old(calls("Closer.Close"))
 //@   ensures C06/in-use-refused: old(id in b.nodes) && old(b.nodes[id].referenceCount) > 0 && !force ==> err != nil && nodesUnchanged(b) && calls("Closer.Close") == old(calls("Closer.Close"))
@@ -110,6 +114,7 @@ package eventlogger
 //@   ensures C06/others-untouched: forall j NodeID :: j != id ==> (j in b.nodes) == old(j in b.nodes) && b.nodes[j] == old(b.nodes[j]) && (old(j in b.nodes) ==> b.nodes[j].referenceCount == old(b.nodes[j].referenceCount))
 //@   ensures wf: wfNodes(b)
 //@   ensures unlocked: noLocksHeld()
+//@   ensures C04/single-critical-section: acquisitions(b.lock) <= old(acquisitions(b.lock)) + 1
 
 // ---- pipelines ----
 
@@ -148,6 +153,7 @@ package eventlogger
 //@   requires b != nil && noLocksHeld() && wfGraphs(b)
 //@   ensures C05/any-registered-iff: found <==> ((e in b.graphs) && (exists k PipelineID :: k in view(b.graphs[e].roots.m)))
 //@   ensures unlocked: noLocksHeld()
+//@   ensures C04/single-critical-section: acquisitions(b.lock) <= old(acquisitions(b.lock)) + 1
 //@   rangeloop 1 invariant !found && (forall k PipelineID :: !seen(1, k))
 
 //@ func (*Broker).RemovePipeline(t, id) (err)
@@ -156,6 +162,7 @@ package eventlogger
 //@   ensures C07/removed: !(t == "" || id == "" || !old(t in b.graphs)) ==> err == nil && !(id in view(b.graphs[t].roots.m)) && onlychanged("syncmap", b.graphs[t].roots.m) && (forall k PipelineID :: k != id ==> (k in view(b.graphs[t].roots.m)) == old(k in view(b.graphs[t].roots.m)) && view(b.graphs[t].roots.m)[k] == old(view(b.graphs[t].roots.m)[k]))
 //@   ensures graphs-untouched: forall u EventType :: (u in b.graphs) == old(u in b.graphs) && b.graphs[u] == old(b.graphs[u])
 //@   ensures unlocked: noLocksHeld()
+//@   ensures C04/single-critical-section: acquisitions(b.lock) <= old(acquisitions(b.lock)) + 1
 
 // ---- linked chains ----
 // Ghost description of the chain built by linkNodes: root.chain[k] is the k-th linked node, root.clen the length.
@@ -201,19 +208,22 @@ package eventlogger
 
 //@ func (*Broker).RegisterPipeline(def, opt) (err)
 //@   requires b != nil && noLocksHeld() && wfGraphs(b) && wfNodes(b) && nodesNonNil(b)
-//@   ensures C05/rejects-malformed: err == nil ==> old(acceptable(b, def))
+//@   ensures C05/accepted-definition-wellformed: err == nil ==> def.PipelineID != "" && def.EventType != "" && len(def.NodeIDs) >= 2
+//@   ensures C05/accepted-ids-registered: err == nil ==> (forall j int :: 0 <= j && j < len(def.NodeIDs) ==> def.NodeIDs[j] != "" && old(def.NodeIDs[j] in b.nodes))
+//@   ensures C05/accepted-ends-formatter-sink: err == nil ==> nodeType(old(b.nodes[def.NodeIDs[len(def.NodeIDs)-1]].node)) == NodeTypeSink && isFormatterLike(old(b.nodes[def.NodeIDs[len(def.NodeIDs)-2]].node))
 //@   ensures C07/deny-is-sticky: err == nil ==> !old(denied(b, def))
 //@   ensures C05/accepts-wellformed: old(acceptable(b, def)) && !old(denied(b, def)) && len(opt) == 0 ==> err == nil
-//@   ensures C05+C07/failure-is-noop: err != nil ==> nodesUnchanged(b) && unchanged("syncmap") && ev_n == old(ev_n) && (forall u EventType :: old(u in b.graphs) ==> (u in b.graphs) && b.graphs[u] == old(b.graphs[u]))
+//@   ensures C05+C07/failure-is-noop: err != nil ==> nodesUnchanged(b) && ev_n == old(ev_n) && (forall u EventType :: old(u in b.graphs) ==> (u in b.graphs) && b.graphs[u] == old(b.graphs[u])) && (forall g *graph, k PipelineID :: old(allocated(g)) ==> (k in view(g.roots.m)) == old(k in view(g.roots.m)) && view(g.roots.m)[k] == old(view(g.roots.m)[k])) && (forall u EventType :: (u in b.graphs) && !old(u in b.graphs) ==> (forall k PipelineID :: !(k in view(b.graphs[u].roots.m))))
 //@   ensures C07/stored-with-policy: err == nil ==> (def.EventType in b.graphs) && (def.PipelineID in view(b.graphs[def.EventType].roots.m)) && validPolicy(view(b.graphs[def.EventType].roots.m)[def.PipelineID].registrationPolicy) && (len(opt) == 0 ==> view(b.graphs[def.EventType].roots.m)[def.PipelineID].registrationPolicy == AllowOverwrite)
 //@   ensures C01+C07/stored-chain-is-definition: err == nil ==> isChain(view(b.graphs[def.EventType].roots.m)[def.PipelineID].rootNode) && view(b.graphs[def.EventType].roots.m)[def.PipelineID].rootNode.clen == len(def.NodeIDs) && (forall k int :: 0 <= k && k < len(def.NodeIDs) ==> view(b.graphs[def.EventType].roots.m)[def.PipelineID].rootNode.chain[k].nodeID == def.NodeIDs[k] && view(b.graphs[def.EventType].roots.m)[def.PipelineID].rootNode.chain[k].node == old(b.nodes[def.NodeIDs[k]].node))
 //@   ensures C07/single-atomic-swap: err == nil ==> ev_n == old(ev_n) + 1 && ev_kind(old(ev_n)) == "mapstore" && ev_a(old(ev_n), 0) == ref(b.graphs[def.EventType].roots.m) && ev_a(old(ev_n), 1) == def.PipelineID
-//@   ensures C01+C07/other-pipelines-untouched: err == nil ==> onlychanged("syncmap", b.graphs[def.EventType].roots.m) && (forall k PipelineID :: k != def.PipelineID ==> (k in view(b.graphs[def.EventType].roots.m)) == old(k in view(b.graphs[def.EventType].roots.m)) && view(b.graphs[def.EventType].roots.m)[k] == old(view(b.graphs[def.EventType].roots.m)[k]))
+//@   ensures C01+C07/other-pipelines-untouched: err == nil ==> onlychanged("syncmap", b.graphs[def.EventType].roots.m) && (forall k PipelineID :: k != def.PipelineID ==> (k in view(b.graphs[def.EventType].roots.m)) == (old(def.EventType in b.graphs) && old(k in view(b.graphs[def.EventType].roots.m))) && (old(def.EventType in b.graphs) ==> view(b.graphs[def.EventType].roots.m)[k] == old(view(b.graphs[def.EventType].roots.m)[k])))
 //@   ensures C07/existing-graphs-kept: forall u EventType :: old(u in b.graphs) ==> (u in b.graphs) && b.graphs[u] == old(b.graphs[u])
 //@   ensures C06+C07/node-table-kept: (forall i NodeID :: (i in b.nodes) == old(i in b.nodes) && b.nodes[i] == old(b.nodes[i])) && (forall u *nodeUsage :: old(allocated(u)) ==> u.node == old(u.node) && u.registrationPolicy == old(u.registrationPolicy))
 //@   ensures wf: wfGraphs(b) && wfNodes(b)
 //@   ensures unlocked: noLocksHeld()
+//@   ensures C04/single-critical-section: acquisitions(b.lock) <= old(acquisitions(b.lock)) + 1
 //@   rangeloop 1 invariant pol == AllowOverwrite && !seen(1, def.PipelineID)
 //@   loop 1 invariant len(nodes) == len(def.NodeIDs) && (forall j int :: 0 <= j && j <= rangeindex ==> (def.NodeIDs[j] in b.nodes) && nodes[j] == b.nodes[def.NodeIDs[j]].node)
 //@   ghost call (*graph).doValidate#1 with root = root, k = 0
-//@   loop 2 invariant true
+//@   loop 2 invariant forall u *nodeUsage :: u.referenceCount >= old(u.referenceCount)
